@@ -155,6 +155,7 @@ func NewAOFEngine(options ...func(engine *Engine)) (*Engine, error) {
 }
 
 func (engine *Engine) LogCommand(database int, command []byte) {
+	verifPoint("aof.log.enter")
 	if err := engine.appendStore.Write(database, command); err != nil {
 		log.Printf("log command error: %+v\n", err)
 	}
